@@ -66,6 +66,8 @@ PPC = "bcj,powerpc,-1"
 IA64 = "bcj,ia64,-1"
 SPARC = "bcj,sparc,-1"
 RISCV = "bcj,riscv,-1"
+L2bad = "lzma2,65536,4,32,0"      # invalid mode: LZMA_OPTIONS_ERROR (after the LZMA encoder structs were allocated)
+L1bad = "lzma1,65536,4,32,0"
 D1 = "delta,1"
 D4 = "delta,4"
 
@@ -158,6 +160,27 @@ class Gen:
                                 "sdec:0:" + xz("%s+%s" % (X86o, L2a), 500, 1, 1), "dcode", "sdec:0:" + xz("%s+%s" % (D4, L2a), 500, 2, 1), "dcode",
                                 "bdec:blk/%s/crc32/400" % L2b, "dcode", "bdec:blk/%s+%s/crc32/400" % (D4, L2b), "dcode"])
         add("end-and-reuse", ["senc:%s:crc32" % L2a, "run:10", "end", "sdec:0:" + xz(L2a, 500, 1, 1), "end", "end", "alonedec:0:lzma/%s/100" % L1a, "dcode"])
+        # --- REFUSED operations: they must cost nothing and leak nothing, with or without allocation failures ------
+        # (mid-Block / mid-chunk lzma_filters_update, changed Filter IDs, update after the last Block, invalid options)
+        add("senc-refused-updates", ["senc:%s:crc32" % L2a, "run:600", "upd:%s" % L2c, "upd:%s+%s" % (D4, L2a), "sync:100",
+                                     "upd:%s+%s" % (X86, L2a), "upd:%s" % L2c, "run:300", "upd:%s" % L2a, "upd:%s+%s" % (D1, L2b), "full:50",
+                                     "upd:%s" % L2bad, "upd:%s+%s" % (D4, L2bad), "run:200", "upd:%s" % L2bad, "finish:100", "upd:%s" % L2a,
+                                     "upd:%s+%s" % (D4, L2a)])
+        add("senc-bcj-refused-updates", ["senc:%s+%s+%s:crc64" % (X86, D4, L2a), "run:900", "upd:%s+%s+%s" % (X86, D4, L2c),
+                                         "upd:%s+%s" % (D4, L2a), "upd:%s+%s+%s+%s" % (D1, X86, D4, L2a), "full:10", "run:700",
+                                         "upd:%s+%s+%s" % (ARM64, D4, L2a), "finish:0", "upd:%s+%s+%s" % (X86, D4, L2a)])
+        add("refused-inits-on-used-handle", ["senc:%s:crc32" % L2a, "run:100", "sdecbad", self.easy(0), "run:10", "senc:%s:crc32" % L2bad,
+                                             "sdec:0:" + xz(L2a, 500, 1, 1), "adecbad", "lzipdec:0:lz/16/2000", "lzipdecbad", "aenc:%s" % L1a,
+                                             "aenc:%s" % L1bad, "renc:%s+%s" % (D1, L2a), "renc:%s+%s" % (D1, L2bad), "benc:%s:crc32" % L2a,
+                                             "benc:%s+%s:crc32" % (X86, L2bad), "mlenc:%s" % L1bad, "senc:%s+%s:crc32" % (D4, L2a), "finish:100",
+                                             "senc:%s+%s:crc32" % (D4, L2bad), "adecbad", "sdecbad", "sdec:0:" + xz(L2a, 500, 1, 1), "dcode"])
+        add("raw-block-refused-updates", ["renc:%s+%s" % (D1, L2a), "run:500", "upd:%s+%s" % (D1, L2c), "upd:%s" % L2a, "finish:100", "upd:%s+%s" % (D1, L2a),
+                                          "benc:%s:crc32" % L2a, "run:400", "upd:%s" % L2c, "upd:%s+%s" % (D4, L2a), "sync:10", "upd:%s" % L2c,
+                                          "upd:%s" % L2bad, "finish:10", "upd:%s" % L2a, "renc:%s" % L1a, "run:100", "upd:%s" % L1c, "finish:1"])
+        add("memlimit-badaction", ["memlimit:1", "badaction", "sdec:0:" + xz(L2a, 2000, 2, 1), "memlimit:1", "badaction", "dcode", "memlimit:1",
+                                   "alonedec:0:lzma/%s/1000" % L1a, "memlimit:1", "dcode", "adec:0:" + xz(L2a, 500, 1, 1), "badaction", "memlimit:1",
+                                   "dcode", "senc:%s:crc32" % L2a, "memlimit:1", "run:100", "badaction", "finish:10", "badaction",
+                                   "idec:0:idx/10", "memlimit:1", "dcode", "fidec:1:" + xz(L2a, 300, 1, 2), "memlimit:1", "dcode"], slots=(0, 1))
         # --- lzma_index_* ---------------------------------------------------------------------
         add("index-ops", ["ix_init:0", "ix_app:0:600", "ix_init:1", "ix_app:1:3", "ix_cat:0:1", "ix_dup:1:0", "ix_app:1:2", "ix_end:0",
                           "ix_init:0", "ix_cat:1:0", "ix_dup:2:1", "ix_end:1"], slots=(0, 1, 2))
@@ -187,6 +210,9 @@ class Gen:
                            "sencmt:%s+%s:crc64:3:4096" % (X86, L2a), "finish:5000"], mt=True)
         add("mt-decoder", ["sdecmt:0:2:" + xz(L2a, 3000, 3, 1), "dcode", "sdecmt:8:3:" + xz(L2a, 2000, 2, 2), "dcode",
                            "sdecmt:0:1:" + xz("%s+%s" % (D4, L2a), 2000, 2, 1), "dcode"], mt=True)
+        add("mt-refused-updates", ["sencmt:%s:crc32:2:8192" % L2a, "run:20000", "upd:%s" % L2c, "upd:%s+%s" % (D4, L2a), "full:100", "upd:%s" % L2c,
+                                   "run:5000", "upd:%s" % L2bad, "upd:%s" % L2a, "finish:10", "upd:%s" % L2a, "sdecmt:0:2:" + xz(L2a, 3000, 3, 1), "memlimit:1",
+                                   "badaction", "dcode"], mt=True)
         add("mt-mixed", ["sencmt:%s:crc32:2:8192" % L2a, "run:20000", "sdecmt:0:2:" + xz(L2a, 3000, 3, 1), "dcode", "senc:%s:crc32" % L2a,
                          "finish:100", "sdecmt:0:2:" + xz(L2a, 3000, 3, 1), "sencmt:%s:crc32:2:8192" % L2a, "finish:20000"], mt=True)
         return S
@@ -203,18 +229,26 @@ class Gen:
                 r = rng.randrange(16)
                 ch = rng.choice(pre) + rng.choice(encs)
                 if r == 0:
-                    steps += [self.easy(rng.choice((0, 1))), "run:%d" % rng.randrange(0, 2000)] + (["finish:%d" % rng.randrange(0, 500)] if rng.random() < .6 else [])
+                    steps += [self.easy(rng.choice((0, 1))), "run:%d" % rng.randrange(1, 2000)] + (["finish:%d" % rng.randrange(0, 500)] if rng.random() < .6 else [])
                 elif r == 1:
                     steps += ["senc:%s:%s" % (ch, rng.choice(("none", "crc32", "crc64", "sha256")))]
                     anybcj = "bcj" in ch
-                    for _ in range(rng.randrange(0, 4)):
+                    for _ in range(rng.randrange(0, 5)):
                         # BCJ filters reject LZMA_SYNC_FLUSH (LZMA_OPTIONS_ERROR): not an allocation matter, keep it out.
                         # A failed lzma_filters_update keeps the OLD chain, so no chain of this run may contain a BCJ filter.
                         acts = ("run", "full", "finish") if anybcj else ("run", "sync", "full", "finish")
                         act = rng.choice(acts)
-                        steps.append(act + ":%d" % rng.choice((0, 1, 300, 2500)))
-                        if rng.random() < .3 and act in ("full",):
-                            cur = rng.choice(pre) + rng.choice(encs)
+                        # (a BCJ filter holds back its last few bytes, so a 1-byte LZMA_RUN would not reach the LZMA2 encoder;
+                        # keep the "inside an LZMA2 chunk" state unambiguous)
+                        lens = (0, 300, 2500) if anybcj else (0, 1, 300, 2500)
+                        if act == "run":
+                            # two lzma_code(LZMA_RUN) calls in a row without input make no progress: the second one is
+                            # LZMA_BUF_ERROR by the API's rule, not an allocation matter -> no empty LZMA_RUN steps
+                            lens = lens[1:]
+                        steps.append(act + ":%d" % rng.choice(lens))
+                        # lzma_filters_update in ANY state: accepted between Blocks, mostly refused elsewhere
+                        if rng.random() < .35:
+                            cur = rng.choice(pre) + rng.choice(encs + [L2bad])
                             anybcj = anybcj or "bcj" in cur
                             steps.append("upd:" + cur)
                 elif r == 2:
@@ -248,7 +282,8 @@ class Gen:
                     l = rng.choice(l1)
                     steps += ["mlenc:%s" % l, "finish:300"] if rng.random() < .5 else ["mldec:mlz/%s/400" % l, "dcode"]
                 elif r == 13:
-                    steps += ["end"]
+                    steps += [rng.choice(["end", "sdecbad", "adecbad", "lzipdecbad", "memlimit:1", "badaction", "aenc:" + L1bad,
+                                          "senc:%s:crc32" % (rng.choice(pre) + L2bad)])]
                 elif r == 14:
                     s, d = rng.sample(range(3), 2)
                     steps += ["ix_end:%d" % s, "ix_end:%d" % d, "ix_init:%d" % s, "ix_app:%d:%d" % (s, rng.choice((0, 1, 5, 520))), "ix_dup:%d:%d" % (d, s),
